@@ -13,6 +13,7 @@ import GsModel.Pair.Encode
 import GsModel.Doc.Lines
 import GsModel.Scan.GoTypes
 import GsModel.Scan.Indent
+import GsModel.Scan.Lists
 import GsModel.Names.Timeout
 import GsModel.Schema.Valid
 /-
@@ -290,6 +291,12 @@ def handleRemoveIndent (j : Json) : Json :=
   | .panic w => Json.mkObj [("r", Json.str "ok"), ("panic", Json.str w)]
   | .fuel => Json.mkObj [("r", Json.str "fuel")]
 
+/-- {"op":"scan.schemes"|"scan.tags","s":capture} → {"items":[s..]} : the item splitters behind the regexp captures -/
+def handleScanList (schemes : Bool) (j : Json) : Json :=
+  let s := (Diff.J.str j "s").toList
+  let r := if schemes then Scan.schemesOf Scan.goIsSpace s else Scan.fields Scan.goIsSpace s
+  Json.mkObj [("r", Json.str "ok"), ("items", Json.arr (r.map (fun l => Json.str (String.ofList l))).toArray)]
+
 /-- {"op":"names.renameTimeout","seen":[s..],"name":s} → {"name":s} | {"fuel":true} -/
 def handleRenameTimeout (j : Json) : Json :=
   let seen := (Diff.J.strs j "seen").map String.toList
@@ -356,6 +363,8 @@ def handle (line : String) : Json :=
     | "names.renameTimeout" => handleRenameTimeout j
     | "scan.removeIndent" => handleRemoveIndent j
     | "scan.schema" => handleScanSchema j
+    | "scan.schemes" => handleScanList true j
+    | "scan.tags" => handleScanList false j
     | "doc.roundtrip" => handleDoc j
     | "pair.roundtrip" => handlePair j
     | "resp.dispatch" => handleDispatch j
